@@ -331,3 +331,25 @@ pub fn hash_of<T: std::hash::Hash>(t: &T) -> u64 {
     t.hash(&mut h);
     h.finish()
 }
+
+thread_local! {
+    static QUIET_PANICS: std::cell::Cell<bool> = const { std::cell::Cell::new(false) };
+}
+
+/// Run code of the subject under test; a panic inside it is returned as Err(()) without the default
+/// hook printing a message / backtrace for it (a mutated subject can panic millions of times).
+pub fn guarded<T>(f: impl FnOnce() -> T) -> Result<T, ()> {
+    static ONCE: std::sync::Once = std::sync::Once::new();
+    ONCE.call_once(|| {
+        let prev = std::panic::take_hook();
+        std::panic::set_hook(Box::new(move |info| {
+            if !QUIET_PANICS.with(|q| q.get()) {
+                prev(info)
+            }
+        }));
+    });
+    let before = QUIET_PANICS.with(|q| q.replace(true));
+    let r = std::panic::catch_unwind(std::panic::AssertUnwindSafe(f));
+    QUIET_PANICS.with(|q| q.set(before));
+    r.map_err(|_| ())
+}
